@@ -76,32 +76,35 @@ __CPROVER_ensures(vf_gk < o->size ==> (v->data[vf_gk]._channels.size == o->data[
 
 /* ---------------------------------------------------------------- vector<Frame>.  Frame has implicit copy and
  * move constructors over two shared_ptr members: copying/moving a Frame copies the two handles. */
-#define VF_FRAME_SAME(a, b) ((a)._points == (b)._points && (a)._analogs == (b)._analogs)
+/* NB: pointer-valued facts in ensures clauses are stated with __CPROVER_pointer_equals / __CPROVER_is_fresh: when a
+ * contract replaces a call these *assign* the pointer, whereas a plain == only constrains its numeric value and
+ * leaves CBMC unable to dereference it (observed: p == q proved, p->f == q->f refuted). */
+#define VF_FRAME_SAME(a, b) (__CPROVER_pointer_equals((a)._points, (b)._points) && __CPROVER_pointer_equals((a)._analogs, (b)._analogs))
 
 void contract_vf_vec_Frame_push_back(vf_vec_Frame *v, const struct Frame *x)
 __CPROVER_requires(v->size < VF_MAXN && __CPROVER_rw_ok(v, sizeof(*v)) && __CPROVER_r_ok(v->data, VF_VEC_BYTES(*v, struct Frame)) && __CPROVER_r_ok(x, sizeof(*x)))
 __CPROVER_assigns(v->data, v->size)
 __CPROVER_frees(v->data)
 __CPROVER_ensures(v->size == __CPROVER_old(v->size) + 1 && __CPROVER_is_fresh(v->data, v->size * sizeof(struct Frame)))
-__CPROVER_ensures(vf_gk < __CPROVER_old(v->size) ==>
-                  (v->data[vf_gk]._points == __CPROVER_old(v->data[vf_gk < v->size ? vf_gk : 0]._points) &&
-                   v->data[vf_gk]._analogs == __CPROVER_old(v->data[vf_gk < v->size ? vf_gk : 0]._analogs)))
+__CPROVER_ensures(vf_gf < __CPROVER_old(v->size) ==>
+                  (__CPROVER_pointer_equals(v->data[vf_gf]._points, __CPROVER_old(v->data[vf_gf < v->size ? vf_gf : 0]._points)) &&
+                   __CPROVER_pointer_equals(v->data[vf_gf]._analogs, __CPROVER_old(v->data[vf_gf < v->size ? vf_gf : 0]._analogs))))
 __CPROVER_ensures(VF_FRAME_SAME(v->data[v->size - 1], *x));
 
 /* resize(n): shrink keeps the prefix; growth relocates the old elements (handles kept) and default-constructs
  * the new ones: Frame() = fresh empty Points and Analogs */
 void contract_vf_vec_Frame_resize(vf_vec_Frame *v, size_t n)
 __CPROVER_requires(n <= VF_MAXN && v->size <= VF_MAXN && __CPROVER_rw_ok(v, sizeof(*v)) && __CPROVER_r_ok(v->data, VF_VEC_BYTES(*v, struct Frame)))
-__CPROVER_assigns(v->data, v->size, VF_GHOST_ALLOC)
+__CPROVER_assigns(v->data, v->size VF_GHOST_ALLOC)
 __CPROVER_frees(v->data)
 __CPROVER_ensures(v->size == n)
 __CPROVER_ensures(n > __CPROVER_old(v->size) ==> __CPROVER_is_fresh(v->data, n * sizeof(struct Frame)))
-__CPROVER_ensures(n <= __CPROVER_old(v->size) ==> v->data == __CPROVER_old(v->data))
-__CPROVER_ensures((vf_gk < __CPROVER_old(v->size) && vf_gk < n) ==>
-                  (v->data[vf_gk]._points == __CPROVER_old(v->data[vf_gk < v->size ? vf_gk : 0]._points) &&
-                   v->data[vf_gk]._analogs == __CPROVER_old(v->data[vf_gk < v->size ? vf_gk : 0]._analogs)))
-__CPROVER_ensures((vf_gk >= __CPROVER_old(v->size) && vf_gk < n) ==>
-                  (__CPROVER_is_fresh(v->data[vf_gk]._points, sizeof(struct Points)) && v->data[vf_gk]._points->_points.size == 0 &&
-                   __CPROVER_is_fresh(v->data[vf_gk]._analogs, sizeof(struct Analogs)) && v->data[vf_gk]._analogs->_subframe.size == 0));
+__CPROVER_ensures(n <= __CPROVER_old(v->size) ==> __CPROVER_pointer_equals(v->data, __CPROVER_old(v->data)))
+__CPROVER_ensures((vf_gf < __CPROVER_old(v->size) && vf_gf < n) ==>
+                  (__CPROVER_pointer_equals(v->data[vf_gf]._points, __CPROVER_old(v->data[vf_gf < v->size ? vf_gf : 0]._points)) &&
+                   __CPROVER_pointer_equals(v->data[vf_gf]._analogs, __CPROVER_old(v->data[vf_gf < v->size ? vf_gf : 0]._analogs))))
+__CPROVER_ensures((vf_gf >= __CPROVER_old(v->size) && vf_gf < n) ==>
+                  (__CPROVER_is_fresh(v->data[vf_gf]._points, sizeof(struct Points)) && v->data[vf_gf]._points->_points.size == 0 &&
+                   __CPROVER_is_fresh(v->data[vf_gf]._analogs, sizeof(struct Analogs)) && v->data[vf_gf]._analogs->_subframe.size == 0));
 
 #endif
